@@ -362,7 +362,10 @@ def seq_generators(rng):
 
 def make_sequences(rng, tier):
     gens = seq_generators(rng)
-    seqs = []
+    # corpus first: [0] is the one-element all-zero section that overflowed zrun_values in encode_section
+    # (fixed in the C source by commit b193c0f; the sanitizer pass must report it again if it returns)
+    seqs = [("corpus", w) for w in ([0], [0, 0], [1], [255], [-255], [0, 255], [0] * 13, [0] * 12 + [1], [3] + [0] * 40000 + [-3],
+                                    [255, -255] * 20, list(range(-255, 256)), [0, 0, 0, 1] * 9000)]
     lens = [1, 2, 3, 7, 12, 13, 16, 31, 32, 33, 64, 100, 257, 600, 1500, 4000]
     reps = 2 if tier == "quick" else 25
     for name, g in gens.items():
